@@ -1112,6 +1112,11 @@ class TLSConnection(TLSRecordLayer):
         if serverHello.server_version >= (3, 3):
             ext = serverHello.getExtension(ExtensionType.supported_versions)
             if ext:
+                if ext.version is None:
+                    for result in self._sendError(
+                            AlertDescription.decode_error,
+                            "Empty supported_versions extension"):
+                        yield result
                 real_version = ext.version
         self.version = real_version
 
@@ -1243,6 +1248,26 @@ class TLSConnection(TLSRecordLayer):
                         "record_size_limit extension"):
                     yield result
             self._peer_record_size_limit = size_limit_ext.record_size_limit
+        ec_ext = serverHello.getExtension(ExtensionType.ec_point_formats)
+        if ec_ext and real_version < (3, 4) and not ec_ext.formats:
+            for result in self._sendError(
+                    AlertDescription.decode_error,
+                    "Empty ec_point_formats extension"):
+                yield result
+        sr_psk = serverHello.getExtension(ExtensionType.pre_shared_key)
+        if sr_psk and real_version > (3, 3):
+            if sr_psk.selected is None:
+                for result in self._sendError(
+                        AlertDescription.decode_error,
+                        "Empty pre_shared_key extension in Server Hello"):
+                    yield result
+        key_share = serverHello.getExtension(ExtensionType.key_share)
+        if key_share and real_version > (3, 3) and \
+                key_share.server_share is None:
+            for result in self._sendError(
+                    AlertDescription.decode_error,
+                    "Empty key_share extension in Server Hello"):
+                yield result
         yield serverHello
 
     @staticmethod
@@ -1416,6 +1441,15 @@ class TLSConnection(TLSRecordLayer):
 
             if isinstance(result, CertificateRequest):
                 certificate_request = result
+
+                cr_comp_ext = certificate_request.getExtension(
+                    ExtensionType.compress_certificate)
+                if cr_comp_ext and not cr_comp_ext.algorithms:
+                    for result in self._sendError(
+                            AlertDescription.decode_error,
+                            "Empty algorithm list in compress_certificate "
+                            "extension"):
+                        yield result
 
                 if comp_cert_ext:
                     expected_msg = (HandshakeType.certificate,
@@ -3496,6 +3530,14 @@ class TLSConnection(TLSRecordLayer):
 
         # check if the ClientHello and its extensions are well-formed
 
+        # supported_versions is defined as <2..254>, it can't be empty
+        ext = clientHello.getExtension(ExtensionType.supported_versions)
+        if ext and not ext.versions:
+            for result in self._sendError(
+                    AlertDescription.decode_error,
+                    "Empty supported_versions extension"):
+                yield result
+
         #If client's version is too low, reject it
         real_version = clientHello.client_version
         if real_version >= (3, 3):
@@ -3590,6 +3632,14 @@ class TLSConnection(TLSRecordLayer):
                     AlertDescription.decode_error,
                     "Non empty payload of the Extended "
                     "Master Secret extension"):
+                yield result
+
+        # the list of certificate types can't be empty
+        cert_type_ext = clientHello.getExtension(ExtensionType.cert_type)
+        if cert_type_ext and not cert_type_ext.certTypes:
+            for result in self._sendError(
+                    AlertDescription.decode_error,
+                    "Empty cert_type extension"):
                 yield result
 
         # sanity check the ec point formats extension
@@ -4264,6 +4314,12 @@ class TLSConnection(TLSRecordLayer):
 
                 # here we're assuming that the HRR was sent because of
                 # missing key share, that may not always be the case
+                if ext.client_shares is None:
+                    for result in self._sendError(AlertDescription
+                                                  .decode_error,
+                                                  "Empty key_share extension "
+                                                  "in second Client Hello"):
+                        yield result
                 if len(ext.client_shares) != 1:
                     for result in self._sendError(AlertDescription
                                                   .illegal_parameter,
